@@ -8,7 +8,8 @@ from typing import Dict, List, Set
 
 from ..core import rule
 from ..dataflow import DefUse
-from ..program import AnalysisError, dotted, src, walk_local
+from ..program import AnalysisError, dotted, src
+from ..core import walk_local  # inline-aware
 from .common import handler_catching, handler_body_nodes, where
 
 ICAL = "xandikos.icalendar"
